@@ -77,7 +77,7 @@ RULE = ('cases = (timeout T, list of external events) run against the real aiuti
         'timeouts; exhaustive layer: every word of <=4 (quick) / <=5 (thorough) letters over {plain, failing iterator, awaitable, async '
         'iterable, yield, fail, end, Advance T-1 / T+1, FnOk, FnFail, wait(cancel=True)} and one foreign submission split at every pair '
         'of quiescent points of every program of <=3 / <=4 letters; random layer: programs of 6..22 events, up to 8 submissions, about a '
-        'third of the first six calls failing, 3 in 100 events foreign, in 15 of 100 programs up to three argument ids stand for unusual Python values.  Value layer (150 cases, x 2 timeouts in thorough): None and the falsy values 0, False, 0.0, \'\', (), b\'\', frozenset() at the beginning / in the middle / at the end of a real iterator (drained by to_async_iter\'s helper thread), of a list, as a plain argument, as an awaitable\'s result, as an async yield, through a foreign submission, before an iterator failure, twice, with waits, with a failed call in between, and several of them in one iterator (argument ids are mapped to the values on the way in and back in every observed set; the model sees ids).  Programs without Shutdown end with closers for every open producer + '
+        'third of the first six calls failing, 3 in 100 events foreign, in 15 of 100 programs up to three argument ids stand for unusual Python values.  Value layer (150 cases, x 2 timeouts in thorough): None and the falsy values 0, False, 0.0, \'\', (), b\'\', frozenset() at the beginning / in the middle / at the end of a real iterator (drained by to_async_iter\'s helper thread), of a list, as a plain argument, as an awaitable\'s result, as an async yield, through a foreign submission, before an iterator failure, twice, with waits, with a failed call in between, and several of them in one iterator (argument ids are mapped to the values on the way in and back in every observed set; the model sees ids).  Bursts of n plain calls in ONE loop pass (n = 2..513 exhaustive layer, one of ~1100 in the corpus, 1500 in thorough); async producers are async generators or class-based async iterators without aclose (by checksum of the event list).  Programs without Shutdown end with closers for every open producer + '
         '[FnOk; Advance T+1; FnOk].  non-trivial = at least one successful call and at least two submissions (Case_C03.nontrivial, '
         'decided inside Coq); distinct = distinct (case, trace) pairs among those')
 EXHAUSTIVE_NOTE = ('all event words up to length 4 (quick) / 5 (thorough) over the 12-letter C03 alphabet at T=8; all placements of the '
